@@ -68,6 +68,7 @@ public:
      * @param TheMatchPattern The match pattern
      * @param thePatternString the pattern string
      * @param thePriority The priority for the match pattern.
+     * @param theAlternative The index of the alternative of the match pattern that this instance describes
      */
     XalanMatchPatternData(
             MemoryManager&      theManager,
@@ -76,13 +77,15 @@ public:
             const XalanDOMString&   theTargetString,
             const XPath&            theMatchPattern,
             const XalanDOMString&   thePatternString,
-            eMatchScore             thePriority) :
+            eMatchScore             thePriority,
+            size_type               theAlternative) :
         m_template(&theTemplate),
         m_position(thePosition),
         m_targetString(theTargetString, theManager),
         m_matchPattern(&theMatchPattern),
         m_pattern(&thePatternString),
-        m_priority(thePriority)
+        m_priority(thePriority),
+        m_alternative(theAlternative)
     {
     }
 
@@ -154,6 +157,42 @@ public:
     double
     getPriorityOrDefault() const;
 
+    /**
+     * Retrieve the index of the alternative of the match pattern
+     * that this instance describes.  A match pattern that contains
+     * '|' is treated as a set of template rules, one for each
+     * alternative.
+     *
+     * @return The zero-based index of the alternative
+     */
+    size_type
+    getAlternative() const
+    {
+        return m_alternative;
+    }
+
+    /**
+     * Get the match score of a node for the alternative of the
+     * match pattern that this instance describes.
+     *
+     * @param node The node for the score
+     * @param resolver The prefix resolver
+     * @param executionContext current execution context
+     * @return The score
+     */
+    eMatchScore
+    getMatchScore(
+            XalanNode*              node,
+            const PrefixResolver&   resolver,
+            XPathExecutionContext&  executionContext) const
+    {
+        return m_matchPattern->getMatchScore(
+                    node,
+                    resolver,
+                    executionContext,
+                    m_alternative);
+    }
+
 private:
     // not implemented
     XalanMatchPatternData();
@@ -170,6 +209,8 @@ private:
     const XalanDOMString*   m_pattern;
 
     eMatchScore             m_priority;
+
+    size_type               m_alternative;
 };
 
 
